@@ -5,7 +5,7 @@ fails with it.  Writes result JSON to /tmp/seed/val/<id>_<k>.json and removes th
 import json, os, re, shutil, subprocess, sys
 
 def sh(cmd, cwd, timeout=1500):
-    p = subprocess.run(["bash", "-c", f"ulimit -v 10000000; timeout -k 5 {timeout} {cmd}"], cwd=cwd, capture_output=True, text=True)
+    p = subprocess.run(["bash", "-c", f"ulimit -v 10000000; timeout -k 5 {timeout} {cmd}"], cwd=cwd, capture_output=True, text=True, errors="replace")
     return p.returncode, p.stdout + p.stderr
 
 def demo(wt, d, k):
@@ -53,7 +53,7 @@ def main():
         ok0, out0 = demo(wt, d, k)
         res["demo_without_patch_passes"] = ok0
         res["demo_without_log"] = out0[-600:]
-        p = subprocess.run(["git", "apply", os.path.join(d, "patch.diff")], cwd=wt, capture_output=True, text=True)
+        p = subprocess.run(["git", "apply", os.path.join(d, "patch.diff")], cwd=wt, capture_output=True, text=True, errors="replace")
         res["patch_applies"] = p.returncode == 0
         if p.returncode != 0:
             res["apply_err"] = p.stderr[-500:]
